@@ -22,6 +22,17 @@ def sig_c14(rec):
 
 
 PROPS = {
+    "C06": {
+        "families": {"keys": {"quick": 120, "thorough": 2500, "search": 800}},
+        "signature": lambda rec: "keys:" + str((rec.get("case") or {}).get("same_key", (rec.get("case") or {}).get("first_requests")))[:160],
+        "trusted_base": [
+            "model coq/Model/Key.v (getKey) and Dispatcher.v are hand-written; tied by the keys family (exact key bytes; entry identity under forced shard collisions and evictions)",
+            "space-free method and host are net/http's request-parsing guarantee (hypothesis of key_injective; shown necessary by C06_guard_needed)",
+            "the zero-copy []byte->string aliasing of the key is memory safety, not expressible in the model",
+        ],
+        "assumptions": ["per-shard mutex gives atomic lookups"],
+        "explanation": "key_injective + lookup_exact (any hash, any history); the system-level no-cross-serve statement is proved over the entry-protocol model (Properties/C01.v ff.).",
+    },
     "C14": {
         "families": {"route": {"quick": 600, "thorough": 12000, "search": 4000}},
         "signature": sig_c14,
